@@ -72,8 +72,12 @@ Heavier(a, b) == T.heavier[a][b]
 RECURSIVE PathTo(_)
 PathTo(b) == IF b = 1 THEN <<1>> ELSE Append(PathTo(Par(b)), b)
 
+\* the ancestor of x at height h (x itself if it is not higher)
+RECURSIVE AncAt(_, _)
+AncAt(x, h) == IF H(x) <= h THEN x ELSE AncAt(Par(x), h)
+
 Best == PathTo(mem)
-OnBest(b) == b # 0 /\ H(b) + 1 <= Len(Best) /\ Best[H(b) + 1] = b
+OnBest(b) == b # 0 /\ H(b) <= H(mem) /\ AncAt(mem, H(b)) = b
 
 \* ---- what a block means for the wallet address
 Live(tag) ==
@@ -84,10 +88,12 @@ Live(tag) ==
     \/ tag = "impl:renewal"  /\ DevRenewalPayee
 Demanded(tag) == tag \in {"both", "ideal:claim", "ideal:renewal"}
 
-Creates(b) == T.wc[b]
-Spends(b)  == T.ws[b]
-EvOf(b)    == {<<e.id, b, e.in, e.out>> : e \in {x \in T.we[b] : Live(x.tag)}}        \* what the wallet records
-EvDue(b)   == {<<e.id, b, e.in, e.out>> : e \in {x \in T.we[b] : Demanded(x.tag)}}    \* what the property demands
+\* the tree record keeps JSON sequences; they are turned into sets where they are used (per block)
+SeqSet(s)  == {s[i] : i \in 1..Len(s)}
+Creates(b) == SeqSet(T.wc[b])
+Spends(b)  == SeqSet(T.ws[b])
+EvOf(b)    == {<<e.id, b, e.in, e.out>> : e \in {x \in SeqSet(T.we[b]) : Live(x.tag)}}        \* what the wallet records
+EvDue(b)   == {<<e.id, b, e.in, e.out>> : e \in {x \in SeqSet(T.we[b]) : Demanded(x.tag)}}    \* what the property demands
 
 Ids(S) == {e[1] : e \in S}
 
@@ -126,7 +132,7 @@ PollLoop(i, n, rus, aus) ==
     IF i = mem \/ n = 0 THEN [rus |-> rus, aus |-> aus, idx |-> i]
     ELSE IF i # 0 /\ ~OnBest(i)
       THEN PollLoop(Par(i), n - 1, Append(rus, i), aus)
-      ELSE LET j == IF i = 0 THEN 1 ELSE Best[H(i) + 2] IN PollLoop(j, n - 1, rus, Append(aus, j))
+      ELSE LET j == IF i = 0 THEN 1 ELSE AncAt(mem, H(i) + 1) IN PollLoop(j, n - 1, rus, Append(aus, j))
 
 Init ==
     /\ t \in 1..Len(Trees)
